@@ -39,7 +39,7 @@ add(
     "C08",
     "exploration",
     "Generated data sets (n 1..12, d 1..4, duplicates and near-duplicates, targets or fantasy matrices), kernels (Matern-5/2 +-ARD "
-    "+-scale, one / two Kumaraswamy warpings, product, exponential-decay resource kernel), scalar / zero mean and parameters anywhere in "
+    "+-scale, one / two Kumaraswamy warpings, product, exponential-decay resource kernel and its products / warped products, kernels given as (kernel, scale) pair), scalar / zero mean and parameters anywhere in "
     "their boxes incl. corners; kernel matrices against a textbook numpy kernel, then posterior state, predict, neg_log_likelihood, "
     "sample_joint covariance, update / sample_and_update and GaussianProcessRegression.predict / likelihood against a dense numpy "
     "reference with conditioning-scaled tolerance. 4.8e4 cases quick, 8e5 thorough.",
@@ -57,9 +57,10 @@ add(
     "create_lbfgs_arguments against multi-scale Ridders-extrapolated central differences; EI / LCB / EIpu / CEI on GP predictors built by the "
     "library's estimator (pending evaluations with 1-5 fantasies, normalisation on/off) and on a harness-side predictor with prescribed "
     "moments (|u| up to 40, tiny std, infeasible incumbents, non-positive cost): value == value-with-gradient, gradient vs numerical "
-    "derivative, EI == closed form and EI >= 0. 2.2e4 cases quick, 5.6e5 thorough.",
-    "A numerical derivative decides only where it is trustworthy: a mismatch needs two conclusive extrapolations (error estimate and "
-    "conditioning-scaled round-off bound below 1e-4 of the derivative) that agree with each other, disagree with the analytic value, and "
+    "derivative, EI == closed form and EI >= 0, own value unchanged after a call with an overriding predictor. 2.2e4 cases quick, 5.6e5 thorough.",
+    "A numerical derivative decides only where it is trustworthy: steps start near the width of the narrowest feature; a run whose extrapolation "
+    "settled and reproduces the analytic value to 2e-5 accepts it; a mismatch needs two conclusive extrapolations (error estimate and "
+    "conditioning-scaled round-off bound below 1e-4 of the derivative) that agree with each other, differ from the analytic value by more than 1e-3 and "
     "are not contradicted by a finer-step run; everything else is counted as inconclusive. MCMC predictors not generated.",
     "property-based testing (Hypothesis choice tape): analytic gradients vs multi-scale Ridders numerical differentiation; closed-form oracle for EI",
     "DESIGN.md 6/C09",
